@@ -40,12 +40,18 @@ func c18Scenario(clients []gridClient) *explore.Scenario {
 				return
 			}
 			grp := cand[x.Choose("srv.group", len(cand))]
+			// retry: the server first demands a round trip with a HelloRetryRequest that carries only
+			// a cookie (RFC 8446 4.1.4/4.2.2: key_share is then re-sent unchanged) and selects afterwards
+			retry := x.Choose("retry", 2)
 			certKind := "ecdsa"
 			if !offersCert(o, "ecdsa") {
 				certKind = "rsa"
 			}
 			sc := serverChoice{Vers: tls.VersionTLS13, Group: grp, Cert: certKind}
 			what := fmt.Sprintf("%s, server forced to group %d (share index %d of %v)", g.Name, grp, idxOf(o.shares, grp), o.shares)
+			if retry == 1 {
+				what += " after a cookie-only HelloRetryRequest"
+			}
 			type connView struct {
 				random, sid []byte
 				shares      []wire.KeyShare
@@ -54,7 +60,16 @@ func c18Scenario(clients []gridClient) *explore.Scenario {
 			for conn := 0; conn < 3; conn++ {
 				ccfg := g.config("example.com")
 				ccfg.Rand = newScriptRand(fmt.Sprintf("c18-%s-conn%d", g.Name, conn))
-				hs := peer.Run(ccfg, g.ID, sc.config(), peer.Opts{Prepare: withBuildOrder(g.prepare(), conn), Echo: true}) // one connection per build order
+				opts := peer.Opts{Prepare: withBuildOrder(g.prepare(), conn), Echo: true} // one connection per build order
+				var cleanup func()
+				if retry == 1 {
+					hk := &connHooks{CookieHRR: rep(0xC0+byte(conn), 24)}
+					opts.OnConns = func(u *tls.UConn, s *tls.Conn) { cleanup = installHooks(s, hk) }
+				}
+				hs := peer.Run(ccfg, g.ID, sc.config(), opts)
+				if cleanup != nil {
+					cleanup()
+				}
 				msgs := peer.ClientHelloMsgs(hs.CE.AllWritten())
 				if len(msgs) == 0 {
 					r.Violate("C18|no-hello-on-wire", "%s conn %d: %v", what, conn, hs.CErr)
@@ -86,11 +101,25 @@ func c18Scenario(clients []gridClient) *explore.Scenario {
 					}
 				}
 				views = append(views, v)
-				if len(msgs) > 1 {
+				if retry == 1 {
+					if len(msgs) != 2 {
+						r.Violate("C18|cookie-hrr-not-answered|"+errClass(hs.CErr), "%s conn %d: %d ClientHello(s) on the wire, client error %v", what, conn, len(msgs), hs.CErr)
+						return
+					}
+					h2, err := wire.ParseClientHello(msgs[1])
+					if err != nil {
+						r.Violate("C18|cookie-hrr-second-hello-malformed", "%s conn %d: %v", what, conn, err)
+						return
+					}
+					k1, k2 := h.Find(51), h2.Find(51)
+					if k1 == nil || k2 == nil || !bytes.Equal(k1.Body, k2.Body) {
+						r.Violate("C18|cookie-hrr-shares-changed", "%s conn %d: the HelloRetryRequest named no group, yet key_share differs between the two ClientHellos", what, conn)
+					}
+				} else if len(msgs) > 1 {
 					r.Violate(fmt.Sprintf("C18|unexpected-hrr|shareidx=%d", idxOf(o.shares, grp)), "%s conn %d: the server was forced to a group the hello carries a share for, yet a second ClientHello was sent", what, conn)
 				}
 				if !(hs.OK() && hs.EchoOK) {
-					r.Violate(fmt.Sprintf("C18|offered-share-unusable|shares=%v|selected-index=%d|%s", o.shares, idxOf(o.shares, grp), errClass(hs.CErr)),
+					r.Violate(fmt.Sprintf("C18|offered-share-unusable|shares=%v|selected-index=%d|%s%s", o.shares, idxOf(o.shares, grp), errClass(hs.CErr), map[int]string{0: "", 1: "|after-cookie-hrr"}[retry]),
 						"%s conn %d: handshake fails although the server selected a share the client sent: client=%v server=%v echo=%v", what, conn, hs.CErr, hs.SErr, hs.EchoErr)
 					return
 				}
@@ -133,7 +162,7 @@ func c18Scenario(clients []gridClient) *explore.Scenario {
 			}
 			r.Obs = fmt.Sprintf("checked|viol=%d", len(r.Viol))
 			r.Nontrivial = true
-			r.Class = fmt.Sprintf("%s|%d", g.Name, grp)
+			r.Class = fmt.Sprintf("%s|%d|%d", g.Name, grp, retry)
 			r.Count("connections", 3)
 			if idxOf(o.shares, grp) > 0 {
 				r.Count("non_first_share_selected", 1)
@@ -164,7 +193,7 @@ func c18Scenarios(thorough bool) []*explore.Scenario {
 func init() {
 	register(&Prop{ID: "C18", Level: "exploration", Variant: "A", Scenarios: c18Scenarios,
 		Run: func(c *explore.Check, thorough bool) {
-			c.Rule = "every discovered ID, 4 (256) seeds per randomized kind, custom specs (incl. every ordered key_share list of <=3 distinct groups among the 2 hybrid and 3 classical groups), fingerprinted copies x the server forced (CurvePreferences singleton) to EACH group the hello carries a share for x 3 consecutive connections with per-connection scripted entropy: strict per-group share sizes (32/65/97/133/1216), handshake + echo succeeds for every offered share without HRR, negotiated group reported, client random / session id / every key share pairwise distinct across connections. distinct = (client, selected group)"
+			c.Rule = "every discovered ID, 4 (256) seeds per randomized kind, custom specs (incl. every ordered key_share list of <=3 distinct groups among the 2 hybrid and 3 classical groups), fingerprinted copies x the server forced (CurvePreferences singleton) to EACH group the hello carries a share for x {directly, after a HelloRetryRequest that carries only a cookie (verif hook): key_share must be re-sent unchanged} x 3 consecutive connections with per-connection scripted entropy: strict per-group share sizes (32/65/97/133/1216), handshake + echo succeeds for every offered share without HRR, negotiated group reported, client random / session id / every key share pairwise distinct across connections. distinct = (client, selected group)"
 			c.Assumptions = []string{"freshness is decided as non-repetition under different per-connection Config.Rand streams", "QUIC's empty legacy session id is checked by C23"}
 			runAll(c, c18Scenarios(thorough), 0)
 			c.Gate(c.Total.Counters["non_first_share_selected"] > 10, "non-vacuity: non-first share selected %d times", c.Total.Counters["non_first_share_selected"])
